@@ -38,6 +38,10 @@ def main():
                 print("   " + l[:400])
         print("SUMMARY", what, " ".join("%s=%s" % (k, {0: "silent", 1: "CAUGHT", 2: "inconclusive"}.get(v, v)) for k, v in results.items()))
     finally:
+        keep = os.environ.get("KEEP_TO")
+        if keep:
+            os.makedirs(keep, exist_ok=True)
+            sh("cp %s/replays/*/found-* %s/ 2>/dev/null" % (ROOT, keep))
         sh("rm -f %s/replays/*/found-*" % ROOT)
         sh("git -C /repo checkout -- . ")
         st = sh("git -C /repo status --porcelain --untracked-files=no", stdout=subprocess.PIPE).stdout.strip()
